@@ -506,6 +506,38 @@ pub fn drive_c20(a: &Args, out: &mut Out) {
                 "variants":variants,"runs":runs}));
         }
     }
+    // views into one buffer (same start address, overlapping, nested) against separate copies of
+    // the same values: the result may depend on the values only, not on where they live
+    for i in 0..(if thorough { 3000 } else { 400 }) {
+        let n = rng.range(1, 16);
+        let buf: Vec<u32> = (0..n).map(|_| rng.below(3) as u32).collect();
+        let (a0, a1, b0, b1) = match i % 4 {
+            0 => (0, n, 0, rng.below(n + 1)),
+            1 => (0, rng.below(n + 1), 0, n),
+            2 => {
+                let s0 = rng.below(n + 1);
+                (s0, n, s0, rng.range(s0, n))
+            }
+            _ => {
+                let (p, q) = (rng.below(n + 1), rng.below(n + 1));
+                let (r, t) = (rng.below(n + 1), rng.below(n + 1));
+                (p.min(q), p.max(q), r.min(t), r.max(t))
+            }
+        };
+        let (x, y) = (buf[a0..a1].to_vec(), buf[b0..b1].to_vec());
+        for alg in ALGS {
+            let copies = rec::guarded(|| ops_json(&capture_diff_slices(alg, &x, &y))).unwrap_or(json!([[-1]]));
+            let views = rec::guarded(|| ops_json(&capture_diff_slices(alg, &buf[a0..a1], &buf[b0..b1]))).unwrap_or(json!([[-1]]));
+            let txt: String = buf.iter().map(|v| format!("{}\n", v)).collect();
+            let tviews = rec::guarded(|| {
+                ops_json(similar::TextDiff::configure().algorithm(alg).diff_lines(&txt[2 * a0..2 * a1], &txt[2 * b0..2 * b1]).ops())
+            })
+            .unwrap_or(json!([[-1]]));
+            let case = out.next_case();
+            out.emit(&json!({"ev":"determ","case":case,"alg":alg_name(alg),"old":seq_json(&x),"new":seq_json(&y),
+                "aliased":[a0, a1, b0, b1],"variants":[],"runs":[copies, views, tviews]}));
+        }
+    }
     // more than 65 536 unique items per side, with anchors that matter (Patience and Myers disagree):
     // blocks [S_1..S_20, U, r, r, r] against [S_1..S_20, r, r, r, U]
     {
